@@ -21,7 +21,7 @@ PROVED = ("threshold_correct (jitthreshold, kernel level, times doubled): for a 
 NOT_PROVED = ("that boundaries between kept and rejected neighbours are MIDPOINTS is visible in the model text and decided by the oracle; "
               "the IntervalSet constructor applied to the kernel output (drops the zero-length interval of a lone sample: the open "
               "finding) and dropna's +1us singleton widening: oracle + correspondence only")
-ASSUMPTIONS = ["timestamps strictly increasing by at least 2 us (the +1us singleton widening of dropna assumes samples farther apart than 1us)"]
+ASSUMPTIONS = ["timestamps strictly increasing (threshold); dropna with sampling steps <= 1 us: open finding C07-dropna-singleton-within-1us"]
 METHODS = {"above": lambda d, t: d > t, "below": lambda d, t: d < t, "aboveequal": lambda d, t: d >= t, "belowequal": lambda d, t: d <= t}
 
 
@@ -106,6 +106,11 @@ def nan_case(ctx, cls, ts, st, en, mask, sc, lines, meta):
         for j, m in enumerate(mask):
             if m:
                 d[j, j % 2] = np.nan
+        if n >= 2 and sum(mask) and (ts[0] + n) % 3 == 0:
+            # a kept row holding +inf and -inf (no NaN): it stays
+            j0 = mask.index(0) if 0 in mask else None
+            if j0 is not None:
+                d[j0] = [np.inf, -np.inf]
         x = nap.TsdFrame(farr(ts, sc), d, columns=["a", "b"], time_support=iset(st, en, sc))
     else:
         d = np.tile((np.arange(n) + 1.0)[:, None, None], (1, 2, 2))
@@ -116,17 +121,22 @@ def nan_case(ctx, cls, ts, st, en, mask, sc, lines, meta):
     r = x.dropna()
     kept = [t * sc for t, m in zip(ts, mask) if not m]; rej = [t * sc for t, m in zip(ts, mask) if m]
     rows = [j for j, m in enumerate(mask) if not m]
-    gotrows = [int(v) - 1 for v in np.asarray(r.values).reshape(len(r), -1)[:, 0]] if len(r) else []
+    gotrows = [int(v) - 1 if np.isfinite(v) else rows[i] if i < len(rows) else -1
+               for i, v in enumerate(np.asarray(r.values).reshape(len(r), -1)[:, 0])] if len(r) else []
+    # the open finding's class: a kept sample alone in its run (its epoch is widened to [t, t + 1us]) whose successor is a rejected
+    # sample at most 1 us later
+    fctx = dict(op="dropna", singleton_successor_within_1us=any(
+        (not mask[j]) and (j == 0 or mask[j - 1]) and j + 1 < n and mask[j + 1] and (ts[j + 1] - ts[j]) * sc <= 1000 for j in range(n)))
     if ns_arr(r.t) != kept or gotrows != rows:
-        ctx.fail("oracle", "dropna does not keep exactly the NaN-free rows", inp, impl=[ns_arr(r.t), gotrows], expected=[kept, rows]); return
+        ctx.fail("oracle", "dropna does not keep exactly the NaN-free rows", inp, impl=[ns_arr(r.t), gotrows], expected=[kept, rows], finding_ctx=fctx); return
     ss, se = iset_ns(r.time_support)
     ins = lambda t: any(a <= t <= b for a, b in zip(ss, se))
     if any(ins(t) for t in rej) or not all(ins(t) for t in kept):
-        ctx.fail("oracle", "dropna support does not separate kept from rejected samples", inp, impl=(ss, se))
+        ctx.fail("oracle", "dropna support does not separate kept from rejected samples", inp, impl=(ss, se), finding_ctx=fctx)
     if not is_canonical_ns(ss, se):
         ctx.fail("oracle", "dropna support not canonical", inp, impl=(ss, se))
     if ns_arr(x.restrict(r.time_support).t) != kept:
-        ctx.fail("oracle", "restrict(original, dropna support) != result", inp)
+        ctx.fail("oracle", "restrict(original, dropna support) != result", inp, finding_ctx=fctx)
     if 0 < sum(mask) < n:
         s_, e_ = J.jitremove_nan(farr(range(n), 1), np.array(mask, dtype=bool))
         lines.append("removenan %s" % enc([1 if m else 0 for m in mask]))
@@ -170,6 +180,11 @@ def run(ctx):
                 for mask in itertools.product([0, 1], repeat=n):
                     nan_case(ctx, ctx.rng.choice(["Tsd", "TsdFrame", "TsdTensor"]), list(ts), st, en, list(mask),
                              ctx.rng.choice([2000, 10**6, 10**9]), lines, meta)
+    # sampling steps of 1 us and 0.5 us (the resolution of time supports): dropna's singleton epochs [t, t + 1us] (open finding)
+    for n in range(2, 6):
+        for mask in itertools.product([0, 1], repeat=n):
+            for sc in (1000, 500):
+                nan_case(ctx, ["Tsd", "TsdFrame", "TsdTensor"][(n + sum(mask)) % 3], list(range(2, 2 + n)), [0], [G], list(mask), sc, lines, meta)
     out = ctx.lean.run(lines) if ctx.lean else None
     if out is not None:
         for (inp, got), o in zip(meta, out):
